@@ -204,6 +204,7 @@ pub fn prepare_loaded(sb: &Path, r: &mut Rng, allow_bad_files: bool) -> Prepared
     if rc.data.is_empty() && rc.images.is_empty() || r.chance(2, 3) {
         rc.data = pick_keys(r, &DATA_KEYS, 5, false);
         rc.images = pick_keys(r, &IMAGE_KEYS, 5, true);
+        overlap_names(&mut rc, r);
     }
     let src = sb.join("src.ufo");
     build_font(&rc).0.save(&src).unwrap();
@@ -452,7 +453,7 @@ pub fn modify(p: &mut Prepared, r: &mut Rng) {
                 // among them keys the store must refuse (`..`, `.`, trailing separator, a key that
                 // is an ancestor or a descendant of an existing one)
                 let k = *r.pick(&[
-                    "new.bin", "d/new.bin", "fresh/n.txt", "a.txt", "../../evil.txt", "./a.txt", "a.txt/", "d", "a.txt/under",
+                    "new.bin", "d/new.bin", "fresh/n.txt", "a.txt", "i.png", "K.PNG", "thumb", "SCAN.PNG", "../../evil.txt", "./a.txt", "a.txt/", "d", "a.txt/under",
                     "q/r", "/abs.bin", "d//e.bin",
                 ]);
                 let b = vec![r.below(256) as u8, 7, 7];
@@ -528,6 +529,36 @@ pub fn try_store_keys(p: &mut Prepared, r: &mut Rng) {
             record(p, false, k, b, true);
         }
     }
+}
+
+/// after a successful save to `troot`: every entry of the two stores is there with its bytes (what
+/// the cell holds, or what the file it will be read from held before the save)
+pub fn store_bytes_check(p: &Prepared, before: &Snap, after: &Snap, troot: &str) -> Vec<String> {
+    let mut why = vec![];
+    for (image, root, cells) in [(false, &p.shadow.data_root, &p.shadow.data), (true, &p.shadow.images_root, &p.shadow.images)] {
+        let dir = if image { "images" } else { "data" };
+        for (k, c) in cells {
+            let want: Option<Vec<u8>> = match c {
+                CellS::Loaded(b) => Some(b.clone()),
+                CellS::NotLoaded => {
+                    let mut q = root.clone();
+                    q.push(dir.to_string());
+                    q.extend(split_rel(k));
+                    before.get(&q.join("/")).cloned().flatten()
+                }
+                CellS::Error => None,
+            };
+            if let Some(w) = want {
+                let rel = format!("{}/{}/{}", troot, dir, k);
+                match after.get(&rel) {
+                    Some(Some(b)) if *b == w => {}
+                    Some(Some(b)) => why.push(format!("{} holds {} bytes that are not the entry's {} bytes", rel, b.len(), w.len())),
+                    _ => why.push(format!("{} is missing after the save", rel)),
+                }
+            }
+        }
+    }
+    why
 }
 
 /// inject the refusal kinds of `mask` (bit 0 version, 1 objectLibs key, 2 groups, 3 font info)
@@ -799,6 +830,9 @@ pub fn case(seed: u64, idx: u64, out: &Path, verbose: bool) -> CaseOut {
     {
         why.push("refusal changed the file system".into());
     }
+    if run.obs.1 == "Saved" {
+        why.extend(store_bytes_check(&p, &run.before, &run.after, &target_rel.join("/")));
+    }
     let mut preserved = 0;
     if in_place && run.obs.1 == "Saved" {
         for (image, k) in &p.preserve {
@@ -845,7 +879,7 @@ pub fn case(seed: u64, idx: u64, out: &Path, verbose: bool) -> CaseOut {
 /// place, save elsewhere, save again}, with refusals in the middle; stores with 0-2 entries in
 /// error and 5-15 good ones.  Every save is one model case and one oracle verdict; the store cell
 /// states are threaded through (a successful save leaves every cell loaded).
-pub fn history_case(seed: u64, idx: u64, out: &Path, verbose: bool) -> Vec<CaseOut> {
+pub fn history_case(seed: u64, idx: u64, out: &Path, verbose: bool, thorough: bool) -> Vec<CaseOut> {
     let mut r = Rng::new(seed.wrapping_mul(0x9E37_79B9_7F4A_7C15) ^ idx.wrapping_mul(0xD1B5_4A32_D192_ED03) ^ 0x4157);
     let sb = fresh_sandbox(out, "sbh", idx);
     let src = sb.join("src.ufo");
@@ -869,16 +903,38 @@ pub fn history_case(seed: u64, idx: u64, out: &Path, verbose: bool) -> Vec<CaseO
         let ext = ["png", "PNG", "Png", "", "jpg"][(i % 5) as usize];
         rc.images.push((if ext.is_empty() { format!("img {}", i) } else { format!("img{}.{}", i, ext) }, b));
     }
+    overlap_names(&mut rc, &mut r);
     build_font(&rc).0.save(&src).unwrap();
     let mut notes: Vec<String> = vec![];
     if r.chance(1, 5) {
         large_entries(&src, &mut r, &mut notes);
     }
+    // one history with a ~5 MiB and one with a ~17 MiB lazily loaded entry (thorough: also an image
+    // that large), never accessed before the saves: refused save, repair, saves in place
+    const MIB: usize = 1 << 20;
+    let huge: Option<(&str, usize, bool)> = match idx {
+        10 => Some(("data/huge/five_mib.bin", 5 * MIB + 3, false)),
+        20 => Some(("data/seventeen_mib.bin", 17 * MIB + 1, false)),
+        30 if thorough => Some(("images/huge.png", 17 * MIB + 1, true)),
+        35 if thorough => Some(("images/five.png", 5 * MIB + 1, true)),
+        _ => None,
+    };
+    if let Some((rel, size, png)) = huge {
+        let mut b: Vec<u8> = if png { PNG.to_vec() } else { vec![] };
+        b.resize(size, 0);
+        for (i, x) in b.iter_mut().enumerate().skip(8).step_by(4093) {
+            *x = (i % 251) as u8;
+        }
+        let f = src.join(rel);
+        std::fs::create_dir_all(f.parent().unwrap()).unwrap();
+        std::fs::write(&f, &b).unwrap();
+        notes.push(format!("source has {} of {} bytes, never accessed", rel, size));
+    }
     // entries in error: an image without the signature, a data file that vanishes after load
-    let nerr = r.below(3);
+    let nerr = if huge.is_some() { 1 } else { r.below(3) };
     let mut vanish: Vec<String> = vec![];
     for e in 0..nerr {
-        if r.chance(1, 2) {
+        if huge.is_some() || r.chance(1, 2) {
             let bad = format!("bad{}{}", e, *r.pick(&[".png", ".PNG", "", ".db"]));
             std::fs::write(src.join("images").join(&bad), b"GIF89a").unwrap();
             notes.push(format!("images/{} is not a PNG", bad));
@@ -906,7 +962,9 @@ pub fn history_case(seed: u64, idx: u64, out: &Path, verbose: bool) -> Vec<CaseO
     let mut outs = vec![];
     let mut last_target: Vec<String> = comps("src.ufo");
     // half of the stores with entries in error follow the script "save (refused), repair, save again"
-    let script: Option<Vec<u64>> = if nerr > 0 && r.chance(1, 2) {
+    let script: Option<Vec<u64>> = if huge.is_some() {
+        Some(vec![4, 2, 2, 4, 6])
+    } else if nerr > 0 && r.chance(1, 2) {
         Some(if r.chance(1, 2) { vec![4, 2, 2, 4, 6] } else { vec![0, 4, 2, 2, 4] })
     } else {
         None
@@ -1077,7 +1135,7 @@ pub fn main(a: &Args) {
         let seed: u64 = it.next().unwrap().parse().unwrap();
         let idx: u64 = it.next().unwrap().parse().unwrap();
         if it.next() == Some("h") {
-            for c in history_case(seed, idx, &a.out, true) {
+            for c in history_case(seed, idx, &a.out, true, a.thorough()) {
                 println!("{}", c.json);
             }
             return;
@@ -1091,7 +1149,7 @@ pub fn main(a: &Args) {
     let mut j = String::new();
     for i in 0..n {
         if i % 5 == 0 {
-            for c in history_case(a.seed, i, &a.out, false) {
+            for c in history_case(a.seed, i, &a.out, false, a.thorough()) {
                 g.push_str(&c.gallina);
                 g.push('\n');
                 j.push_str(&c.json);
